@@ -112,11 +112,29 @@ def check_fn(fid, fn, shapes, dtypes, tnames, acc=None, sigbase=None, case=None,
     float_first = np.dtype(dtypes[0]).kind == "f" if dtypes else False
     T = transforms(len(shapes), float_first, 0)
     specs0 = [jax.ShapeDtypeStruct(tuple(s), d) for s, d in zip(shapes, dtypes)]
+    base_ok, base_deviates = True, None
     try:
-        jaxutil.to_onnx(fn, specs0)
-        base_ok = True
+        m0 = jaxutil.to_onnx(fn, specs0)
     except Exception:
         base_ok = False
+    if base_ok:
+        # what the untransformed export already gets wrong (or ORT cannot run) belongs to C01 / C03: this property isolates the
+        # effect of the transformation, so such callables are counted and skipped
+        rng0 = np.random.default_rng(feed_seed)
+        feeds0 = [catalog.draw_value(rng0, tuple(s), d, feed_mode) for s, d in zip(shapes, dtypes)]
+        try:
+            exp0 = jaxutil.flatten(fn(*[jnp.asarray(f) for f in feeds0]))
+            got0 = jaxutil.run_model(m0, feeds0)
+            st0, _ = jaxutil.compare_all(got0, exp0, None)
+            if st0 not in ("ok", "trivial"):
+                base_deviates = f"base_export_{st0}"
+        except Exception as e:
+            base_deviates = "base_not_runnable"
+    if base_deviates:
+        if acc:
+            acc.tally("status", f"skipped:{base_deviates}")
+            acc.case()
+        return out
     for tname in tnames:
         if tname not in T:
             continue
@@ -153,6 +171,12 @@ def check_fn(fid, fn, shapes, dtypes, tnames, acc=None, sigbase=None, case=None,
                 acc.tally("status", f"{tname}:ort_error")
             import re
 
+            if "NOT_IMPLEMENTED" in str(e) or "Could not find an implementation" in str(e):
+                # a kernel this ONNX Runtime build lacks (GlobalLpPool-22, Where on some types): environment, not converter
+                if acc:
+                    acc.tally("status", f"{tname}:ort_kernel_missing(inconclusive)")
+                    acc.inconclusive += 1
+                continue
             mm = re.search(r"No Op registered for (\w+)", str(e))
             sig = dict(sigbase or {}, transformation=tname, kind="ort_error", cause=(mm.group(1) + "_not_in_opset") if mm else "other")
             if mm:
